@@ -528,31 +528,36 @@ Lemma decide_spec : forall fuel spec st jobs uid now fc upd0 hd st' jobs' uid' o
 Proof.
   intros until o. intros E Hok. unfold decide in E.
   destruct (c_suspend spec) eqn:Esus.
-  { inversion E; subst; cbn. repeat split; try apply Hok; try lia. left. auto. }
-  destruct (next_schedule_time next fuel (c_created spec) (st_last st) (c_deadline spec) now) as [| |[t|]] eqn:EN;
-    try (inversion E; subst; cbn; repeat split; try apply Hok; try lia; left; auto; fail);
-    try (apply fin_spec in E; destruct E as (-> & -> & -> & Ec & Es & Eu & Eh & Er & Ee);
-         repeat split; auto; try apply Hok; try lia; left; auto; fail).
+  { inversion E; subst; cbn. split; [auto|]. split; [auto|]. split; [lia|]. split; [exact Hok|]. left. auto. }
+  destruct (next_schedule_time next fuel (c_created spec) (st_last st) (c_deadline spec) now) as [| |[t|]] eqn:EN.
+  { inversion E; subst; cbn. split; [auto|]. split; [auto|]. split; [lia|]. split; [exact Hok|]. left. auto. }
+  { inversion E; subst; cbn. split; [auto|]. split; [auto|]. split; [lia|]. split; [exact Hok|]. left. auto. }
+  2:{ apply fin_spec in E; destruct E as (-> & -> & -> & Ec & Es & Eu & Eh & Er & Ee).
+      split; [auto|]. split; [auto|]. split; [lia|]. split; [exact Hok|]. left. auto. }
   destruct (in_active_by_name (st_active st) (job_name_of t) ||
             match st_last st with Some l => l =? t | None => false end).
   { apply fin_spec in E; destruct E as (-> & -> & -> & Ec & Es & Eu & Eh & Er & Ee).
-    repeat split; auto; try apply Hok; try lia. left; auto. }
+    split; [auto|]. split; [auto|]. split; [lia|]. split; [exact Hok|]. left. auto. }
   destruct (apply_policy spec st jobs upd0) as [[[[[skip st1] jobs1] rd] upd1] ok] eqn:EP.
   apply apply_policy_spec in EP. destruct EP as (I1 & I2 & EL & HF).
   assert (Hok1 : uid_ok uid (st_active st1) jobs1) by (eapply uid_ok_incl; eauto).
   destruct ok; cbn [negb] in E.
-  2:{ inversion E; subst; cbn. repeat split; try apply Hok1; try lia. left. auto. }
+  2:{ inversion E; subst; cbn. split; [auto|]. split; [auto|]. split; [lia|]. split; [exact Hok1|]. left. auto. }
   destruct skip.
   { apply fin_spec in E; destruct E as (-> & -> & -> & Ec & Es & Eu & Eh & Er & Ee).
-    repeat split; auto; try apply Hok1; try lia. left; auto. }
+    split; [auto|]. split; [auto|]. split; [lia|]. split; [exact Hok1|]. left. auto. }
   apply create_job_spec in E; auto.
   destruct E as (Es & Eh & Er & Hu & Hok' & [[Ec HL]|(Hs & HL & Hupd & He & Ha)]).
-  - repeat split; auto. left. split; auto. rewrite EL in HL. destruct HL as [HL|[HL HU]]; auto.
+  - split; [auto|]. split; [auto|]. split; [lia|]. split; [exact Hok'|].
+    left. split; auto. rewrite EL in HL. destruct HL as [HL|[HL HU]]; auto.
     right. exists t. auto.
-  - repeat split; auto. right. exists t. repeat split; auto.
+  - split; [auto|]. split; [auto|]. split; [lia|]. split; [exact Hok'|].
+    right. exists t. split; [auto|]. split; [auto|]. split; [auto|].
+    split; [intros HFb; exact (HF HFb eq_refl)|]. split; [auto|]. split; [auto|]. split; [auto|].
     intros HFb. rewrite Ha. specialize (HF HFb eq_refl).
-    assert (st_active st1 = []). { destruct (st_active st1) as [|x r]; auto. specialize (I1 x (or_introl eq_refl)). rewrite HF in I1. destruct I1. }
-    rewrite H. reflexivity.
+    assert (H0 : st_active st1 = []).
+    { destruct (st_active st1) as [|x r]; auto. specialize (I1 x (or_introl eq_refl)). rewrite HF in I1. destruct I1. }
+    rewrite H0. reflexivity.
 Qed.
 
 (* ---- the clean-up half ---- *)
@@ -564,22 +569,27 @@ Lemma pf_step_inv : forall acc j st upd succ failed,
   (forall x, In x failed -> In x failed0 \/ (x = j /\ j_phase j = PhFailed)).
 Proof.
   intros [[[st0 upd0] succ0] failed0] j st upd succ failed. unfold pf_step.
-  destruct (finished (j_phase j)) eqn:Ef.
-  2:{ intros E; inversion E; subst. repeat split; auto; apply incl_refl. }
-  destruct (in_active (st_active st0) (j_uid j));
-    destruct (j_phase j) eqn:Ep; try discriminate Ef;
-    try (intros E; inversion E; subst; cbn; repeat split; auto;
-         try apply incl_refl; try apply del_active_incl;
-         intros x Hx; try (apply in_app_or in Hx; destruct Hx as [Hx|[Hx|[]]]); auto; fail).
-  all: cbn [st_last_success st_last st_active set_active].
-  all: match goal with
-       | |- context [match ?ls with Some _ => _ | None => _ end] => destruct ls
-       end;
-    destruct (j_finish j) as [f|]; cbn;
-    try match goal with |- context [after_ls ?a ?b] => destruct (after_ls a b) end;
-    intros E; inversion E; subst; cbn; repeat split; auto;
-    try apply incl_refl; try apply del_active_incl;
-    intros x Hx; try (apply in_app_or in Hx; destruct Hx as [Hx|[Hx|[]]]); auto.
+  assert (Close : forall st1 succ1 failed1 upd1,
+    st_last st1 = st_last st0 -> incl (st_active st1) (st_active st0) ->
+    (forall x, In x succ1 -> In x succ0 \/ (x = j /\ j_phase j = PhCompleted)) ->
+    (forall x, In x failed1 -> In x failed0 \/ (x = j /\ j_phase j = PhFailed)) ->
+    (st1, upd1, succ1, failed1) = (st, upd, succ, failed) ->
+    st_last st = st_last st0 /\ incl (st_active st) (st_active st0) /\
+    (forall x, In x succ -> In x succ0 \/ (x = j /\ j_phase j = PhCompleted)) /\
+    (forall x, In x failed -> In x failed0 \/ (x = j /\ j_phase j = PhFailed))).
+  { intros ? ? ? ? ? ? ? ? E; inversion E; subst; auto. }
+  assert (App : forall (l : list job) ph, j_phase j = ph ->
+                forall x, In x (l ++ [j]) -> In x l \/ (x = j /\ j_phase j = ph)).
+  { intros l ph Hp x Hx. apply in_app_or in Hx. destruct Hx as [Hx|[Hx|[]]]; auto. }
+  intros E.
+  destruct (st_last_success st0) as [ls|] eqn:Els; destruct (j_finish j) as [f|] eqn:Efin;
+    destruct (in_active (st_active st0) (j_uid j)) eqn:Eia; destruct (j_phase j) eqn:Ep;
+    cbn [finished] in E; cbn -[Z.ltb after_ls] in E;
+    repeat (rewrite ?Els in E; cbn -[Z.ltb after_ls] in E);
+    repeat match type of E with context [if ?b then _ else _] => destruct b end;
+    cbn -[Z.ltb after_ls] in E;
+    (eapply Close; [| | | |exact E]); cbn; auto; try apply incl_refl; try apply del_active_incl;
+    try (apply App; assumption).
 Qed.
 
 Lemma delete_each_spec : forall victims st jobs dels upd st' jobs' dels' upd',
@@ -628,9 +638,7 @@ Proof.
   assert (Inv : st_last st1 = st_last st /\ incl (st_active st1) (st_active st) /\
                 (forall x, In x succ -> In x (mine_of jobs) /\ j_phase x = PhCompleted) /\
                 (forall x, In x failed -> In x (mine_of jobs) /\ j_phase x = PhFailed)).
-  { revert EF. generalize (incl_refl (mine_of jobs)).
-    generalize (mine_of jobs) at 1 3 as l.
-    assert (G : forall l acc, incl l (mine_of jobs) ->
+  { assert (G : forall l acc, incl l (mine_of jobs) ->
       (let '(s0, _, su0, fa0) := acc in
        st_last s0 = st_last st /\ incl (st_active s0) (st_active st) /\
        (forall x, In x su0 -> In x (mine_of jobs) /\ j_phase x = PhCompleted) /\
@@ -647,8 +655,8 @@ Proof.
       split; [congruence|]. split; [eapply incl_tran; eauto|]. split.
       - intros x Hx. destruct (P3 x Hx) as [H|[-> H]]; auto. split; auto. apply Hl. left; auto.
       - intros x Hx. destruct (P4 x Hx) as [H|[-> H]]; auto. split; auto. apply Hl. left; auto. }
-    intros l Hl EF. specialize (G l (st, false, [], []) Hl). rewrite EF in G. apply G.
-    repeat split; auto; try apply incl_refl; intros ? []. }
+    specialize (G (mine_of jobs) (st, false, [], []) (incl_refl _)). rewrite EF in G. apply G.
+    split; [reflexivity|]. split; [apply incl_refl|]. split; intros ? []. }
   destruct Inv as (I1 & I2 & I3 & I4).
   destruct (c_fail_limit spec) as [fl|] eqn:Efl, (c_succ_limit spec) as [sl|] eqn:Esl.
   4:{ intros E; inversion E; subst. repeat split; auto. apply incl_refl. }
@@ -673,13 +681,13 @@ Proof.
   intros E; inversion E; subst.
   assert (G : incl (as_cur (fst (fold_left (stale_step lister (map j_uid mine)) (seq 0 (length a)) (as_of a, false)))) a).
   { apply (fold_left_inv (fun acc : aslice * bool => incl (as_cur (fst acc)) a)).
-    - cbn. rewrite as_cur_of. apply incl_refl.
-    - intros [s0 u0] i H. cbn in H. unfold stale_step.
+    - cbn [fst]. rewrite as_cur_of. apply incl_refl.
+    - intros [s0 u0] i H. cbn [fst] in *. unfold stale_step.
       destruct (nth_error (bk s0) i) as [r|]; [|exact H].
       destruct (existsb (Z.eqb (r_uid r)) (map j_uid mine)); [exact H|].
       destruct (find_job lister (r_name r)) as [j|].
-      + destruct (j_uid j =? r_uid r); [exact H|]. cbn. eapply incl_tran; [apply as_del_incl|exact H].
-      + cbn. eapply incl_tran; [apply as_del_incl|exact H]. }
+      + destruct (j_uid j =? r_uid r); [exact H|]. cbn [fst]. eapply incl_tran; [apply as_del_incl|exact H].
+      + cbn [fst]. eapply incl_tran; [apply as_del_incl|exact H]. }
   rewrite EF in G. exact G.
 Qed.
 
@@ -767,7 +775,7 @@ Proof.
   intros fuel s op s' out. destruct op; cbn [step].
   - destruct (reconcile next lenient fuel s now fail_create) as [s1 r] eqn:ER.
     intros E Hok Hf; inversion E; subst. apply reconcile_spec in ER; auto.
-    destruct ER as (R1 & R2 & R3 & R4 & R5). repeat split; auto.
+    destruct ER as (R1 & R2 & R3 & R4 & R5). split; [exact R1|]. split; [exact R3|].
     destruct R5 as [R5|(t & ? & ? & ? & ? & ? & ?)]; [left; auto|right; exists t; auto].
   - intros E Hok _; inversion E; subst. unfold state_ok in *. cbn. split; [|split; auto].
     + destruct Hok as [H1 H2]. split; auto. rewrite Forall_forall in *. intros x Hx.
@@ -834,7 +842,7 @@ Proof.
                      split; auto; intros ? Eo; discriminate]. }
     destruct Hf2 as [Hf2 Hf1].
     apply step_spec in ES; auto. destruct ES as (Hok1 & HL & Hout).
-    specialize (IH s1 s2 outs2 ER Hok1 Hf2).
+    specialize (IH _ _ _ ER Hok1 Hf2).
     destruct out as [o|]; [|eapply increasing_from_weaken; eauto].
     unfold created_times. cbn [flat_map]. fold (created_times outs2).
     destruct Hout as [Hc|(t & Hs & Hlt & Hlast)].
@@ -876,3 +884,162 @@ Proof.
 Qed.
 
 End Controller.
+
+(* history limits delete only finished runs of this CronJob *)
+Lemma decide_hd : forall next lenient fuel spec st jobs uid now fc upd0 hd st' jobs' uid' o,
+  decide next lenient fuel spec st jobs uid now fc upd0 hd = (st', jobs', uid', o) -> o_hist_deletes o = hd.
+Proof.
+  intros until o. unfold decide, create_job, fin. intros E.
+  repeat match type of E with context [match ?x with _ => _ end] => destruct x end;
+    inversion E; reflexivity.
+Qed.
+
+Theorem history_deletes_finished_only : forall next lenient fuel s now fc s' o,
+  reconcile next lenient fuel s now fc = (s', o) ->
+  Forall (is_hist_victim (s_jobs s)) (o_hist_deletes o).
+Proof.
+  intros next lenient fuel s now fc s' o. unfold reconcile.
+  destruct (cleanup (s_spec s) (s_status s) (s_jobs s)) as [[[st1 jobs1] hd] upd1] eqn:EC.
+  destruct (decide next lenient fuel (s_spec s) st1 jobs1 (s_next_uid s) now fc upd1 hd)
+    as [[[st2 jobs2] uid2] o2] eqn:ED.
+  intros E; inversion E; subst. apply decide_hd in ED. rewrite ED.
+  apply cleanup_spec in EC. tauto.
+Qed.
+
+(* ------------------------------------------------------------------ *)
+(* An irregular schedule: the incompleteness witness (DESIGN F8)       *)
+(* ------------------------------------------------------------------ *)
+
+(* points at seconds 100k and 100k+1 *)
+Definition nxs (s : Z) : Z := if s mod 100 =? 0 then s + 1 else (s / 100 + 1) * 100.
+Definition next_pairs (t : Z) : Z := nxs (t / sec) * sec.
+
+Lemma nxs_gt : forall s, s + 1 <= nxs s.
+Proof. intros s. unfold nxs. destruct (Z.eqb_spec (s mod 100) 0); [lia|]. Z.div_mod_to_equations. lia. Qed.
+
+Lemma nxs_point : forall s, nxs s mod 100 = 0 \/ nxs s mod 100 = 1.
+Proof.
+  intros s. unfold nxs. destruct (Z.eqb_spec (s mod 100) 0).
+  - right. Z.div_mod_to_equations. lia.
+  - left. apply Z_mod_mult.
+Qed.
+
+Lemma nxs_least : forall q k, (k mod 100 = 0 \/ k mod 100 = 1) -> q < k -> nxs q <= k.
+Proof.
+  intros q k Hk Hq. unfold nxs. destruct (Z.eqb_spec (q mod 100) 0); [lia|].
+  Z.div_mod_to_equations. lia.
+Qed.
+
+Lemma next_pairs_gt : forall t, t < next_pairs t.
+Proof.
+  intros t. unfold next_pairs. pose proof (nxs_gt (t / sec)). pose proof sec_pos.
+  pose proof (Z.mul_succ_div_gt t sec H0). nia.
+Qed.
+
+Lemma next_pairs_least : forall t s, sched next_pairs s -> t < s -> next_pairs t <= s.
+Proof.
+  intros t s [u <-] Hlt. unfold next_pairs in *. pose proof sec_pos.
+  assert (Hq : t / sec < nxs (u / sec)). { apply Z.div_lt_upper_bound; lia. }
+  pose proof (nxs_least (t / sec) (nxs (u / sec)) (nxs_point _) Hq). nia.
+Qed.
+
+Lemma next_pairs_sec : forall t, exists k, next_pairs t = k * sec.
+Proof. intros t. eexists. reflexivity. Qed.
+
+(* with an irregular schedule the choice is NOT complete: unmet schedule points
+   exist in (earliest, now] and yet nothing is chosen (a missed start) *)
+Theorem cron_complete_refuted :
+  exists next, (forall t, t < next t) /\ (forall t s, sched next s -> t < s -> next t <= s) /\
+               (forall t, exists k, next t = k * sec) /\
+  exists fuel created last deadline now,
+    (exists s, sched next s /\ earliest_time created last deadline now true < s /\ s <= now) /\
+    next_schedule_time next fuel created last deadline now = NsOk None.
+Proof.
+  exists next_pairs. split; [exact next_pairs_gt|]. split; [exact next_pairs_least|]. split; [exact next_pairs_sec|].
+  exists 10%nat, (- sec), None, None, (150 * sec). split.
+  - exists (100 * sec). split; [exists (50 * sec); vm_compute; reflexivity|]. vm_compute. split; [reflexivity|discriminate].
+  - vm_compute. reflexivity.
+Qed.
+
+(* ------------------------------------------------------------------ *)
+(* Non-vacuity                                                          *)
+(* ------------------------------------------------------------------ *)
+
+Definition ex_spec : cspec := mkSpec (- sec) false Forbid None (Some 1) (Some 1).
+Definition ex_state : cstate :=
+  mkState ex_spec (mkStatus None [] None)
+          [mkJob 7 1 OwnThis PhCompleted (Some 5) (Some 6); mkJob 8 2 OwnThis PhCompleted (Some 6) (Some 7)] 3.
+
+(* a well-formed state; two reconciles start two different schedule points,
+   the second only after the first run has finished (Forbid), and the history
+   limit removes exactly the older finished job *)
+Example controller_nonvacuous :
+  state_ok ex_state /\
+  let '(s', outs) := run next_pairs false 10 ex_state
+                         [OpReconcile (100 * sec) false; OpReconcile (200 * sec) false;
+                          OpFinish 1 PhCompleted (Some (200 * sec)); OpReconcile (200 * sec + 5) false] in
+  created_times outs = [100 * sec; 200 * sec] /\
+  map o_hist_deletes outs = [[7]; []; [8]] /\
+  Forall (fun o => o_err o <> E_FUEL) outs.
+Proof.
+  split.
+  - split; repeat constructor.
+  - vm_compute. split; [reflexivity|]. split; [reflexivity|].
+    repeat constructor; discriminate.
+Qed.
+
+Example gc_nonvacuous :
+  let j := mkGjob 1 PhCompleted (Some 10) false (Some (5 * sec)) in
+  gc_due j (15 * sec) /\ ~ gc_due j (15 * sec - 1) /\
+  process_job (Some j) (Some j) (15 * sec) (15 * sec) = mkGcOut [] (Some 1) false /\
+  process_job (Some j) (Some j) (15 * sec - 1) (15 * sec - 1) = mkGcOut [1] None false.
+Proof.
+  cbv zeta. split; [|split; [|split; vm_compute; reflexivity]].
+  - repeat split. exists 10, (5 * sec). repeat split. vm_compute. discriminate.
+  - intros (_ & _ & ttl & fin & E1 & E2 & H). inversion E1; inversion E2; subst. vm_compute in H. apply H. reflexivity.
+Qed.
+
+(* ------------------------------------------------------------------ *)
+(* The laws speak about the same predicates                             *)
+(* ------------------------------------------------------------------ *)
+From V Require Import C18.Laws.
+
+Lemma law_time_left_model : forall j since, law_time_left j since (time_left j since) = true.
+Proof.
+  intros j since. unfold law_time_left, expiry, time_left, needs_cleanup.
+  destruct (g_ttl j), (g_finish j), (finished (g_phase j)); cbn; auto. apply Z.eqb_refl.
+Qed.
+
+Lemma law_history_NoDup : forall l, law_history l = true -> NoDup l.
+Proof.
+  unfold law_history. intros l H.
+  assert (G : forall l, increasing l = true -> NoDup l /\ forall x y r, l = x :: r -> In y r -> x < y).
+  { induction l0 as [|a r IH]; [split; [constructor|discriminate]|].
+    intros Hi. destruct r as [|b r'].
+    - split; [constructor; [intros []|constructor]|]. intros x y r0 E Hy. inversion E; subst. destruct Hy.
+    - cbn [increasing] in Hi. apply andb_prop in Hi. destruct Hi as [Hab Hr].
+      destruct (IH Hr) as [N1 N2]. apply Z.ltb_lt in Hab.
+      assert (L : forall y, In y (b :: r') -> a < y).
+      { intros y [<-|Hy]; auto. specialize (N2 b y r' eq_refl Hy). lia. }
+      split.
+      + constructor; auto. intros Hin. specialize (L a Hin). lia.
+      + intros x y r0 E Hy. inversion E; subst. auto. }
+  apply G; auto.
+Qed.
+
+(* a delete accepted by the law is justified exactly as in gc_only_when_due *)
+Lemma law_gc_delete : forall lj fresh lo hi uid rqs,
+  law_gc lj fresh lo hi (Some uid) rqs = true ->
+  exists f, fresh = Some f /\ gc_due f hi /\ uid = g_uid f.
+Proof.
+  intros lj fresh lo hi uid rqs. unfold law_gc. intros H.
+  apply andb_prop in H. destruct H as [H _]. apply andb_prop in H. destruct H as [H _].
+  destruct fresh as [f|]; [|discriminate]. exists f. split; auto.
+  apply andb_prop in H. destruct H as [H Hu]. apply andb_prop in H. destruct H as [Hd He].
+  unfold expiry in He. unfold gc_due.
+  destruct (g_ttl f) as [ttl|] eqn:Et; [|discriminate].
+  destruct (g_finish f) as [fi|] eqn:Ef; [|discriminate].
+  destruct (finished (g_phase f)) eqn:Eph; [|discriminate].
+  split; [split; [reflexivity|]|lia]. split; [destruct (g_deleting f); [discriminate|reflexivity]|].
+  exists ttl, fi. repeat split; auto. lia.
+Qed.
